@@ -46,6 +46,8 @@ inductive Tok
   | cr (c : Nat) (r : Res)
   | lk (n : Nat)
   | to (c : Nat)   -- a cancelled call was still blocked when the watchdog expired
+  | conn (opened : Bool) (n : Nat)   -- broker-side census: connection n accepted / closed by the client
+  | oc (n : Nat)   -- connections still open after the scenario's timeouts
 deriving Repr, DecidableEq
 
 def parseNats (s : String) : Option (List Nat) :=
@@ -78,6 +80,9 @@ def parseTok (t : String) : Option Tok :=
   | ["cr", c, r] => do some (.cr (← c.toNat?) (← parseRes r))
   | ["lk", n] => do some (.lk (← n.toNat?))
   | ["to", c] => do some (.to (← c.toNat?))
+  | ["bo", n] => do some (.conn true (← n.toNat?))
+  | ["bc", n] => do some (.conn false (← n.toNat?))
+  | ["oc", n] => do some (.oc (← n.toNat?))
   | _ => none
 
 def parseCfg (s : String) : Option Cfg := do
@@ -129,11 +134,15 @@ def obsEvents (s : State) : Tok → List Event
   | .cr c r => if s.calls.any (fun x => x.id = c && x.phase = .left r) then [.ret c] else []
   | .lk _ => []
   | .to _ => []
+  | .conn _ _ => []
+  | .oc _ => []
 
 def stepObs (cfg : Cfg) (ss : SS) (t : Tok) : SS :=
   match t with
   | .lk _ => ss
   | .to _ => ss
+  | .conn _ _ => ss
+  | .oc _ => ss
   | _ =>
     let next := ss.fold (fun acc s => (obsEvents s t).foldl (fun acc e =>
       match step cfg s e with | some s' => s' :: acc | none => acc) acc) []
@@ -226,7 +235,7 @@ def holds (cfg : Cfg) (toks : List Tok) : Bool :=
         z.any fun y => y.2 < x.2 && (match y.1 with | .co ids true => ids.contains m | _ => false)
     | _ => true
   -- H6 census
-  let h6 := toks.all fun t => match t with | .lk n => n = 0 | .to _ => false | _ => true
+  let h6 := toks.all fun t => match t with | .lk n => n = 0 | .oc n => n = 0 | .to _ => false | _ => true
   h1 && h2 && h3 && h4 && h5 && h6
 
 end WMon
